@@ -723,5 +723,46 @@ func runOptionSources(c *core.Ctx, r *core.Report, names []string) {
 		okCfg := strings.Contains(d, ".Options."+f)
 		okFlag := strings.Contains(d, "\""+kebab(f)+"\"")
 		r.Check(okCfg && okFlag, core.FuncName(where)+"#"+f, c.Pos(lit.Pos()), f+" ← "+d, "RunOptions."+f+" is fed from "+d+": expected the config option Options."+f+" and the flag --"+kebab(f))
+		// the flag is consulted only when the trigger does not bring its own options (config-file mode keeps the file's)
+		seen := map[ssa.Value]bool{}
+		var flagReads []*ssa.Call
+		var walk func(v ssa.Value, depth int)
+		walk = func(v ssa.Value, depth int) {
+			v = stripAllocs(v)
+			if v == nil || seen[v] || depth > 8 {
+				return
+			}
+			seen[v] = true
+			switch x := v.(type) {
+			case *ssa.Phi:
+				for _, e := range x.Edges {
+					walk(e, depth+1)
+				}
+			case *ssa.Extract:
+				walk(x.Tuple, depth+1)
+			case *ssa.Call:
+				if t := an.Callee(x); t != nil && strings.HasPrefix(t.Name(), "Get") && t.Signature.Recv() != nil && strings.HasSuffix(t.Signature.Recv().Type().String(), "pflag.FlagSet") {
+					flagReads = append(flagReads, x)
+				}
+			case *ssa.UnOp:
+				if al, ok := x.X.(*ssa.Alloc); ok {
+					for _, st := range an.StoresTo(al) {
+						walk(st.Val, depth+1)
+					}
+				}
+			}
+		}
+		for _, v := range vs {
+			walk(v, 0)
+		}
+		for _, fr := range flagReads {
+			guarded := false
+			for _, g := range an.GuardsOf(fr.Block()) {
+				if fld, _ := an.TerminalField(g.Cond); fld != nil && fld.Name() == "IgnoreCommonFlags" && !g.Polarity {
+					guarded = true
+				}
+			}
+			r.Check(guarded, core.FuncName(where)+"#"+f+"-flag-only-without-own-options", an.Pos(c, fr), "the --"+kebab(f)+" flag is read only when the trigger does not ignore the common flags", "the --"+kebab(f)+" flag is read also when the trigger brings its own options (config-file mode): the flag's default silently replaces the value from the file")
+		}
 	}
 }
